@@ -242,6 +242,8 @@ func (vc *VC) putBytes(st *State, dstE ast.Expr, dst Val, v string, n int64, c *
 	for i := int64(0); i < n; i++ {
 		na = fmt.Sprintf("(store %s %d (mod (div %s %s) 256))", na, i, v, pow256(n-1-i))
 	}
+	na = vc.define("put", "(Array Int Int)", na)
+	vc.beIdentity(st, na, v, n)
 	nv := Val{S: fmt.Sprintf("(mk_%s %s %s %s)", dst.Sort, na, ln, org), Ty: dst.Ty, Sort: dst.Sort}
 	// write back through the destination expression
 	switch d := dstE.(type) {
